@@ -20,7 +20,9 @@ def run(ctx):
         pws = [pw("ascii", n) for n in list(range(0, 17)) + [31, 32, 33, 63, 64, 65, 100, 127, 128, 255, 256, 257, 511, 512]] + \
               [pw("latin", n) for n in (1, 2, 31, 100, 256)] + [pw("cjk", n) for n in (1, 2, 21, 170)] + \
               [pw("emoji", n) for n in (1, 2, 16, 128)] + [pw("mixed", n) for n in (2, 3, 4, 7, 50, 204)]
-    consts = {"KeyBits": bits, "NonceLens": nlens, "Passwords": Tla("{" + ", ".join(pws) + "}")}
+    combos = [(b, p) for b in sorted(bits) for p in ("pkcs1", "oaep-sha1", "oaep-sha256")]
+    consts = {"KeyBits": bits, "NonceLens": nlens, "Passwords": Tla("{" + ", ".join(pws) + "}"),
+              "ByteCombos": Tla("<<" + ", ".join('<<%d, "%s">>' % c for c in combos) + ">>"), "ByteSample": ctx.quick}
     fn_pipeline(ctx, "C16", "pwtoken", "GenPasswordToken", "TracePasswordToken", consts=consts, trace_consts=consts,
                 spec="Spec0", crate="h_crypto", key=lambda c: c.get("c"),
                 expected=lambda c: strip(c["exp"]["r"]), observed=lambda o: strip(o.get("r")),
@@ -30,7 +32,11 @@ def run(ctx):
                      "(PKCS#1, OAEP-SHA1, OAEP-SHA256) x key size, each decrypted with the same nonce and with 8 nonce variants "
                      "through legacy_password_decrypt and decrypt_user_identity_token_password; (b) the decision table of crafted "
                      "plaintexts (length prefix x password class x nonce relation); (c) arbitrary ciphertexts (11 lengths x 3 "
-                     "fills); distinct by case record; non-trivial = not the empty password with the empty nonce")
+                     "fills); (d) byte-level crafted plaintexts of a hostile client, correctly encrypted: length prefix classes "
+                     "{0, nonce_len-5..nonce_len+1, body length, +1, +nonce_len, 0xFFFFFFFF} x body classes {tails of the nonce, the "
+                     "nonce, password+nonce, password+wrong nonce, empty, unrelated} x nonce classes {pseudo-random, all zero, 1..4 "
+                     "leading zero bytes, a length-prefix look-alike; lengths 0..5, 32}, judged against a total specified "
+                     "decryption on byte sequences; distinct by case record; non-trivial = not the empty password with the empty nonce")
     ctx.assumptions += ["RSA is symbolic in the model; the harness encrypts crafted plaintexts with openssl's EVP encrypter",
                         "a nonce variant that the plaintext body ends with (empty nonce, nonce without its first byte) is by "
                         "the token format a valid token for that nonce: only 'no panic' is required there",
